@@ -252,6 +252,59 @@ def recompiler(repo):
 
 
 @_memo
+def rewriter_roles(repo):
+    """Which attribute of the rewriter holds the emitted global name for: the function ('ovld'), its table ('map'),
+    the method's own code ('code').  Found by what the re-compiler binds under each name."""
+    rc = recompiler(repo)
+    rw = rewriter(repo)
+    owner = rc.params[1] if len(rc.params) > 1 else None
+    ctor = [c for c in ast.walk(rc.node) if isinstance(c, ast.Call) and call_name(c) == rw.name]
+    if len(ctor) != 1:
+        raise AnalysisError(f"anchor 'rewriter construction': expected one in {rc.key}, found {len(ctor)}")
+    init = rw.methods.get("__init__")
+    if init is None:
+        raise AnalysisError(f"anchor 'rewriter roles': {rw.key} has no __init__")
+    a = init.node.args
+    iparams = [x.arg for x in a.posonlyargs + a.args][1:]
+    passed = {}
+    for i, arg in enumerate(ctor[0].args):
+        if i < len(iparams):
+            passed[iparams[i]] = dotted(arg)
+    for k in ctor[0].keywords:
+        if k.arg:
+            passed[k.arg] = dotted(k.value)
+    # what is bound under each variable in the method's globals
+    bound = {}
+    for n in ast.walk(rc.node):
+        key = val = None
+        if isinstance(n, ast.Assign) and isinstance(n.targets[0], ast.Subscript) and isinstance(n.targets[0].value, ast.Attribute) and n.targets[0].value.attr == "__globals__":
+            key, val = n.targets[0].slice, n.value
+        elif isinstance(n, ast.Call) and isinstance(n.func, ast.Attribute) and n.func.attr == "setdefault" and isinstance(n.func.value, ast.Attribute) and n.func.value.attr == "__globals__" and len(n.args) == 2:
+            key, val = n.args
+        if key is not None and isinstance(key, ast.Name):
+            bound[key.id] = val
+    roles = {}
+    selfattr = {}
+    rvn = (a.posonlyargs + a.args)[0].arg
+    for n in ast.walk(init.node):
+        if isinstance(n, ast.Assign) and isinstance(n.value, ast.Name) and n.value.id in iparams:
+            for t in n.targets:
+                if is_self_attr(t, selfname=rvn):
+                    selfattr[n.value.id] = t.attr
+    for param, var in passed.items():
+        v = bound.get(var)
+        if v is None or param not in selfattr:
+            continue
+        if isinstance(v, ast.Attribute) and v.attr == "__code__":
+            roles["code"] = (selfattr[param], param, var)
+        elif isinstance(v, ast.Attribute) and v.attr == "map":
+            roles["map"] = (selfattr[param], param, var)
+        elif (isinstance(v, ast.Attribute) and v.attr == "dispatch") or (isinstance(v, ast.Name) and v.id == owner):
+            roles["ovld"] = (selfattr[param], param, var)
+    return roles
+
+
+@_memo
 def adapter(repo):
     """The function that decides between recompiling and renaming a method."""
     rc = recompiler(repo)
@@ -310,23 +363,21 @@ def overload_meta(repo):
 
 @_memo
 def subtler_fn(repo):
-    """The per-argument key function for type-valued arguments: returns type[obj] in some branch and type(obj) by default."""
+    """The per-argument key function for type-valued arguments: a one-parameter module function with several
+    branches returning type[...]."""
 
     def ok(f):
         if f.cls is not None or f.parent is not None or len(f.params) != 1:
             return False
-        p = f.params[0]
-        sub = call_ = False
+        subs = 0
         for n in ast.walk(f.node):
             if isinstance(n, ast.Return) and n.value is not None:
                 v = n.value
                 if isinstance(v, ast.Subscript) and dotted(v.value) == "type":
-                    sub = True
-                if isinstance(v, ast.Call) and call_name(v) == "type" and len(v.args) == 1 and dotted(v.args[0]) == p:
-                    call_ = True
-        return sub and call_
+                    subs += 1
+        return subs >= 2
 
-    return _one([f for f in repo.all_funcs() if ok(f)], "type-valued key function (returns type[obj] / type(obj))")
+    return _one([f for f in repo.all_funcs() if ok(f)], "type-valued key function (several branches returning type[...])")
 
 
 @_memo
